@@ -130,7 +130,7 @@ def _ctx_calls(rng, schemes, n, allow_hash=True, cats=(None,)):
 
 
 def generate(rng, prop, tier):
-    t = rng.choices(["T1", "T2", "T3", "T4", "T5", "T6", "T7", "T8", "T9", "T10"], [18, 12, 18, 11, 13, 8, 4, 13, 3, 3])[0]
+    t = rng.choices(["T1", "T2", "T3", "T4", "T5", "T6", "T7", "T8", "T9", "T10", "T11"], [18, 12, 18, 11, 13, 8, 4, 13, 3, 3, 4])[0]
     nthreads = rng.choice([2, 2, 2, 3])
     params = {}
     threads = []
@@ -190,6 +190,16 @@ def generate(rng, prop, tier):
             params["preload"] = rng.sample(REGISTRY_NAMES, rng.choice([2, 3, 5]))
             if not any(c[0] != "list_handlers" for th in threads for c in th):
                 threads[-1] = [["get_crypt_handler", rng.choice(names)]]
+    elif t == "T11":
+        # an application's own handler module, registered by path (the documented extension mechanism): its body builds a
+        # by-name PrefixWrapper, and somewhere else a LAZY wrapper around one of its handlers waits for its first use
+        for _ in range(nthreads):
+            threads.append([rng.choice([["u_lazy_hash"], ["u_lazy_verify"], ["u_get", "myhash"], ["u_get", "myhash_wrapped"], ["u_hash_attr", "myhash"],
+                                        ["u_ctx", "myhash"]]) for _ in range(rng.randint(1, 2))])
+        if not any(c[0].startswith("u_lazy") for th in threads for c in th):
+            threads[0] = [["u_lazy_hash"]]
+        if not any(not c[0].startswith("u_lazy") for th in threads for c in th):
+            threads[-1] = [["u_get", "myhash"]]
     elif t == "T6":
         schemes = rng.sample(CTX_SCHEMES, rng.randint(1, 4))
         if rng.random() < 0.5:
@@ -246,7 +256,7 @@ def generate(rng, prop, tier):
         sparams = {"plan": [[rng.choice(HOT[:18]), rng.randint(1, 12)] for _ in range(rng.randint(1, 3))],
                    "p": rng.choice([0.0, 0.005, 0.02])}
     # pre-emption inside module bodies of imports made by the threads (cooperative import locks)
-    preempt_imports = rng.random() < {"T5": 0.7, "T1": 0.25, "T2": 0.25, "T6": 0.25}.get(t, 0.1)
+    preempt_imports = rng.random() < {"T5": 0.7, "T1": 0.25, "T2": 0.25, "T6": 0.25, "T11": 1.0}.get(t, 0.1)
     cfg = {"target": t, "params": params, "threads": threads, "strategy": strategy, "sparams": sparams, "preempt_imports": preempt_imports,
            "opcode_hot": tier == "thorough" and rng.random() < 0.3, "seed": rng.getrandbits(32)}
     return {"cfg": cfg, "ops": []}
@@ -273,6 +283,29 @@ def simplify_cfg(cfg):
 # ---------------------------------------------------------------------------------------------
 # environment + calls
 # ---------------------------------------------------------------------------------------------
+USER_MODULE = '''"""an application's own handlers (written by the harness into a scratch directory)"""
+import hashlib
+
+from passlib.utils import handlers as uh
+
+
+class myhash(uh.StaticHandler):
+    name = "myhash"
+    checksum_chars = uh.LOWER_HEX_CHARS
+    checksum_size = 32
+    _hash_prefix = "@my@"
+
+    def _calc_checksum(self, secret):
+        if isinstance(secret, str):
+            secret = secret.encode("utf-8")
+        return hashlib.md5(b"my:" + secret).hexdigest()
+
+
+# a wrapper given BY NAME and resolved right here, at import time (as in PrefixWrapper's docstring example)
+myhash_wrapped = uh.PrefixWrapper("myhash_wrapped", "md5_crypt", prefix="{MY}", lazy=False)
+'''
+
+
 class OnloadFailure(RuntimeError):
     """raised by the harness's own onload callback (fault: the first initialisation of a lazy context fails)"""
 
@@ -361,6 +394,21 @@ def build_env(cfg):
 
             for n in p.get("preload", ()):
                 get_crypt_handler(n)
+        elif t == "T11":
+            import os
+            import tempfile
+
+            from passlib.registry import register_crypt_handler_path
+            from passlib.utils import handlers as uh
+
+            d = tempfile.mkdtemp(prefix="verif-userhandlers-")
+            with open(os.path.join(d, "verif_userhandlers.py"), "w") as fh:
+                fh.write(USER_MODULE)
+            sys.path.insert(0, d)
+            env["tmpdir"] = d
+            register_crypt_handler_path("myhash", "verif_userhandlers")
+            register_crypt_handler_path("myhash_wrapped", "verif_userhandlers")
+            env["lazyw"] = uh.PrefixWrapper("lazy_myhash", "myhash", prefix="{L}", lazy=True)
         elif t in ("T6", "T8"):
             from passlib.context import CryptContext
 
@@ -503,6 +551,29 @@ def _call(env, k, spec):
 
         h = get_crypt_handler(spec[1])
         return ["obj", h.name, id(h)]
+    if k == "u_lazy_hash":
+        w = env["lazyw"]
+        h = w.hash(PW)
+        return [h, w.verify(PW, h), w.identify(h)]
+    if k == "u_lazy_verify":
+        w = env["lazyw"]
+        return [w.verify(PW, "{L}@my@" + "0" * 32), w.identify("{L}@my@" + "0" * 32)]
+    if k == "u_get":
+        from passlib.registry import get_crypt_handler
+
+        h = get_crypt_handler(spec[1])
+        return ["obj", h.name, id(h)]
+    if k == "u_hash_attr":
+        import passlib.hash
+
+        h = getattr(passlib.hash, spec[1])
+        return [h.name, h.hash(PW)]
+    if k == "u_ctx":
+        from passlib.context import CryptContext
+
+        c = CryptContext([spec[1]])
+        h = c.hash(PW)
+        return [h, c.verify(PW, h)]
     if k == "list_handlers":
         from passlib.registry import list_crypt_handlers
 
@@ -621,11 +692,22 @@ def _postprocess(env, outcomes):
     return out, {k: len(v) for k, v in ids.items()}
 
 
+def _cleanup(env):
+    d = env.get("tmpdir")
+    if d:
+        import shutil
+
+        shutil.rmtree(d, ignore_errors=True)
+
+
 def _sequential(cfg):
     """the specification: the same calls, one thread, fresh process"""
     env = build_env(cfg)
-    outcomes = [[do_call(env, c) for c in calls] for calls in cfg["threads"]]
-    fixed, ids = _postprocess(env, outcomes)
+    try:
+        outcomes = [[do_call(env, c) for c in calls] for calls in cfg["threads"]]
+        fixed, ids = _postprocess(env, outcomes)
+    finally:
+        _cleanup(env)
     return {"outcomes": fixed, "ids": ids}
 
 
@@ -677,6 +759,7 @@ def execute(program, ctx):
         sched.spawn(make(i, calls))
     finished = sched.run(timeout=50)
     sys.settrace(None)
+    _cleanup(env)
     ctx.op(sum(len(c) for c in cfg["threads"]))
     ctx.sim_time += sched.step
     ctx.fault("preemption", max(0, len(sched.switches) - 1))
@@ -750,7 +833,7 @@ def _target_kind(cfg):
     """what kind of first-use object the run is about (root-cause granularity for signatures)"""
     t = cfg["target"]
     return {"T1": "LazyCryptContext", "T2": "LazyCryptContext", "T3": "multi-backend-hasher", "T4": "LazyBase64Engine",
-            "T5": "registry", "T6": "CryptContext-caches", "T7": "digest-cache", "T8": "post-init", "T9": "pwd-wordsets",
+            "T5": "registry", "T6": "CryptContext-caches", "T7": "digest-cache", "T8": "post-init", "T9": "pwd-wordsets", "T11": "user-handler-module",
             "T10": "libpass-context"}[t]
 
 
@@ -773,6 +856,8 @@ def _target_label(cfg):
         return "digest-cache"
     if t == "T9":
         return "pwd"
+    if t == "T11":
+        return "user-handler-module"
     if t == "T10":
         return "libpass:" + ",".join(p["schemes"])
     return "post-init"
